@@ -403,7 +403,7 @@ def build(u):
     ps = u.src("proxy_agent/src/proxy/proxy_server.rs")
     iin = u.src("proxy_agent/src/host_clients/instance_info.rs")
     u.features += ["allocator_api", "sized_hierarchy", "pattern", "const_destruct", "const_trait_impl"]
-    for f in ("str_axioms.rs", "ext_types.rs", "std_string.rs", "http.rs"):
+    for f in ("str_axioms.rs", "ext_types.rs", "std_string.rs", "http.rs", "http_consts.rs"):
         u.raw(open(os.path.join(COMMON, f)).read())
     u.raw("use vstd::std_specs::hash::*;")
     u.raw(open(os.path.join(COMMON, "hash_iter.rs")).read())
